@@ -580,6 +580,17 @@ def _hasattr(ex, o, name):
         raise
 
 
+def _getattr(ex, o, name, *default):
+    if not isinstance(name, str):
+        raise Unsupported("getattr with a symbolic name")
+    try:
+        return ex.getattr(o, name)
+    except PyRaise as r:
+        if r.exc == "AttributeError" and default:
+            return default[0]
+        raise
+
+
 def _callable(ex, v):
     return isinstance(v, (Closure, Bound, ClassRef, ModFn, PyMethod)) or callable(v)
 
@@ -595,6 +606,22 @@ def _itemgetter(ex, *items):
         return tuple(ex_.getitem(obj, i) for i in items)
 
     return g
+
+
+def _exec(ex, code, globs=None, locs=None):
+    """exec(source string, globals, locals) for a CONCRETE source string: the statements are executed by the engine itself in
+    the given locals mapping (the mapping object is used as the environment, so bindings and in-place updates persist)"""
+    if not isinstance(code, str):
+        raise Unsupported("exec of a non-constant source")
+    env = locs if locs is not None else (globs if globs is not None else {})
+    if not isinstance(env, dict) or not all(isinstance(k, str) for k in env):
+        raise Unsupported("exec namespace")
+    try:
+        tree = ast.parse(code)
+    except SyntaxError:
+        raise PyRaise("SyntaxError", "exec")
+    ex.exec_block(tree.body, env, None)
+    return None
 
 
 def _deepcopy(ex, v, memo=None):
@@ -646,7 +673,7 @@ BUILTINS = {
     "enumerate": _enumerate, "chain": _chain, "isinstance": _isinstance, "bool": _bool, "sum": _sum,
     "max": _max, "min": _min, "zip": _zip, "set": _set, "list": _list, "tuple": _tuple, "sorted": _sorted,
     "abs": _abs, "str": _str, "next": _next_lazy, "hasattr": _hasattr, "callable": _callable,
-    "filter": _filter, "itemgetter": _itemgetter, "deepcopy": _deepcopy, "repr": lambda ex, v: OpaqueStr("repr"),
+    "filter": _filter, "itemgetter": _itemgetter, "deepcopy": _deepcopy, "exec": _exec, "getattr": _getattr, "repr": lambda ex, v: OpaqueStr("repr"),
 }
 
 
@@ -819,6 +846,11 @@ def pymethod(ex, o, name, args, kw):
         return SymList(o.arr, o.length, o.is_int)
     if isinstance(o, (BStr, str)):
         if name == "format":
+            if isinstance(o, str) and all(isinstance(a, (str, int)) and not isinstance(a, bool) for a in list(args) + list(kw.values())):
+                try:
+                    return o.format(*args, **kw)  # concrete template and concrete str/int arguments: the real string
+                except (IndexError, KeyError, ValueError):
+                    raise PyRaise("ValueError", "str.format")
             r = OpaqueStr("format")
             r.template, r.args, r.kwargs = o, list(args), dict(kw)  # kept so that contracts can state what is shown
             return r
